@@ -7,6 +7,8 @@ use subprocess::{Popen, PopenConfig, PopenError, Redirection};
 use vreplay::*;
 
 mod fail;
+mod ident;
+mod lookup;
 mod spawn;
 
 fn main() {
@@ -16,6 +18,8 @@ fn main() {
     let (cases, viols) = match fam.as_str() {
         "spawn" => spawn::run(&a),
         "fail" => fail::run(&a),
+        "ident" => ident::run(&a),
+        "lookup" => lookup::run(&a),
         _ => {
             eprintln!("unknown family {}", fam);
             std::process::exit(2);
